@@ -74,6 +74,14 @@ func (x *c11Real) ensureHooks() {
 			return
 		}
 		w.WriteHeader(http.StatusOK)
+		if r.spec.Beh == "late" {
+			// a target that answers 200 at once and streams its body afterwards is a healthy target
+			if f, ok := w.(http.Flusher); ok {
+				f.Flush()
+			}
+			time.Sleep(25 * time.Millisecond)
+			_, _ = w.Write([]byte("accepted, processed later"))
+		}
 	}))
 }
 
@@ -146,12 +154,18 @@ func c11AddRealChannel(e *c11Env, nt *notification.Notifier, r *c11Rec) error {
 		x.hooks[path] = r
 		x.mu.Unlock()
 		url := x.hookSrv.URL + path
+		oldTries := e.s.Cfg.Webhook.MaxTries
+		if r.spec.Beh == "late" {
+			// the production limit matters here: deliveries wrongly counted as failures deactivate the webhook
+			e.s.Cfg.Webhook.MaxTries = 3
+		}
 		if _, err := e.s.Services.Webhooks.CreateWebhook("Bearer", "", "c11token", url); err != nil {
 			return fmt.Errorf("CreateWebhook: %w", err)
 		}
 		nt.AddChannel(e.s.Services.Webhooks)
 		r.closer = func() {
 			_ = e.s.Services.Webhooks.DeleteWebhook(url)
+			e.s.Cfg.Webhook.MaxTries = oldTries
 			x.mu.Lock()
 			delete(x.hooks, path)
 			x.mu.Unlock()
@@ -206,6 +220,25 @@ func c11Thorough(e *c11Env, do func(*c11Case, string) error) error {
 		}
 		k := &c11Case{Chans: chans, N: c.Rng.Intn(1000000), H: h, Faults: faults}
 		if err := do(k, "thorough-real"); err != nil {
+			return err
+		}
+	}
+	// long runs (a p2p headers message carries up to 2000 headers): a hanging / held channel registered before a
+	// healthy one; every Add must return, every header must get its event on the healthy channel
+	for i, spec := range []struct {
+		n     int
+		chans []c11Spec
+	}{
+		{1100, []c11Spec{{"R", "hang"}, {"W", "ok"}}},
+		{1100, []c11Spec{{"W", "slow"}, {"R", "ok"}}},
+		{5000, []c11Spec{{"R", "hang"}, {"R", "ok"}}},
+	} {
+		hl := fmt.Sprintf("g=1,486604799,1,1,1231006505,2083236893;f=;L2,1,%d,545259519", spec.n)
+		k, err := c11Parse(fmt.Sprintf("c=%s/n=%d|%s", c11ChanStr(spec.chans), 7000+i, hl))
+		if err != nil {
+			return err
+		}
+		if err := do(k, "thorough-long-run"); err != nil {
 			return err
 		}
 	}
